@@ -51,7 +51,9 @@ def _fd(draw):
                 # memory layout of the evaluation point (same values and shape): C order, Fortran order, a transposed view
                 layout=draw(st.sampled_from(["C", "C", "F", "T"])),
                 int_point=draw(st.sampled_from([False, False, False, False, True])),
-                xi=draw(st.lists(st.integers(-3, 3), min_size=n, max_size=n)))
+                xi=draw(st.lists(st.integers(-3, 3), min_size=n, max_size=n)),
+                # a function that hands back its argument, or a view of it (no new array): x, x reversed, x transposed
+                view=draw(st.sampled_from([None, None, None, None, None, "self", "reversed", "transposed", "asarray"])))
 
 
 @st.composite
@@ -119,10 +121,27 @@ def _check_fd(case):
         fmag = float(np.max(np.abs(v ** 3 - 2 * v)))
         case = dict(case, adaptive=True)
         phi = "cubic"          # (the accuracy bound of a nonlinear map applies, not the rounding-level bound of linear ones)
+    if case.get("view") and not case.get("int_point"):
+        mode = case["view"]
+
+        def f(xx):        # noqa: F811  (a linear map that allocates nothing: what it returns shares memory with its argument)
+            if mode == "self":
+                return xx
+            if mode == "asarray":
+                return np.asarray(xx)
+            if mode == "reversed":
+                return xx[::-1]
+            return xx.T
+        outs = tuple(np.shape(f(x)))
+        m = n
+        Jtrue = np.stack([np.asarray(f(e.reshape(ins))).reshape(-1) for e in np.eye(n)], axis=1)
+        fmag = float(np.max(np.abs(x))) if n else 0.0
+        phi = "linear"
+        case = dict(case, adaptive=True)
     tol = case["tol"]
     kw = {} if tol is None else dict(atol=tol, rtol=tol)
     viols = []
-    sig = "{}:{}".format("flat" if case["flat"] else "tensor", phi)
+    sig = "{}:{}".format("flat" if case["flat"] else "tensor", phi) + (":view" if case.get("view") and not case.get("int_point") else "")
     attrs = dict(flat=case["flat"], phi=phi)
     try:
         if not case.get("adaptive", True):
@@ -169,7 +188,7 @@ def _check_fd(case):
             viols.append(V("fd_accuracy" if not transposed else "fd_layout", "JacobianWrapper(base_order={}, tol={}, flat={}) differs from the analytic Jacobian by {:.3e} (allowed {:.3e}) for f: {} -> {} ({}) at x = {}".format(
                 case["base_order"], tol, case["flat"], err, allowed, ins, outs, phi, case["x"]), sig, **attrs))
         metrics = {"fd_err/allowed": err / allowed}
-        return viols, dict(nontrivial=bool(m != n or len(ins) > 1 or len(outs) > 1), labels=["fd:" + phi, "fd:flat" if case["flat"] else "fd:tensor", "fd:order{}".format(case["base_order"]), "fd:adaptive" if case.get("adaptive", True) else "fd:fixed_depth"], metrics=metrics)
+        return viols, dict(nontrivial=bool(m != n or len(ins) > 1 or len(outs) > 1), labels=["fd:" + phi, "fd:flat" if case["flat"] else "fd:tensor", "fd:order{}".format(case["base_order"]), "fd:adaptive" if case.get("adaptive", True) else "fd:fixed_depth"] + (["fd:returns_view_of_argument:" + case["view"]] if case.get("view") and not case.get("int_point") else []), metrics=metrics)
     return viols, dict(nontrivial=bool(m != n or len(ins) > 1 or len(outs) > 1), labels=["fd:" + phi])
 
 
